@@ -60,7 +60,7 @@ SpecGen == Init /\ [][NextGen]_vars
 \* ---- properties of the reference machine (C13 at design level) -----------
 \* whatever is saved now resolves every id, and carries every added/changed style
 Inv_Defined == Viol_C13(st, SaveView(st)) = {}
-Inv_Wf == /\ st.pending \subseteq st.reg
+Inv_Wf == /\ PendIds(st) \subseteq st.reg
           /\ {d.id : d \in st.ver} \subseteq st.reg
           /\ \A x \in st.nums : x.a \in st.abss
           /\ \A r \in st.nrefs : \E x \in st.nums : x.n = r.n
@@ -68,7 +68,7 @@ Inv_Wf == /\ st.pending \subseteq st.reg
           /\ \A r \in st.refs : r.id \in st.reg \/ CallerOwned(r.by) \/ r.id \in st.removed
 \* between saves, a registry style that differs from the styles part is pending or was registered by a helper
 Inv_Pending == st.hasPart =>
-                 \A i \in st.reg : VerOf(st.ver, i) # VerOf(st.pver, i) => i \in st.pending
+                 \A i \in st.reg : VerOf(st.ver, i) # VerOf(st.pver, i) => i \in PendIds(st)
 \* a save writes the registry
 Act_Save ==
   [][\A op \in OpsOf(st) :
